@@ -77,6 +77,8 @@ pub struct Cfg {
     pub tq_ms: u64,
     /// "tcp" | "ws" | "quic"
     pub transport: String,
+    /// quinn idle timeout (= connection open timeout) in seconds
+    pub quic_idle: u64,
 }
 
 impl Cfg {
@@ -92,6 +94,7 @@ impl Cfg {
             bystander: v["bystander"].as_bool().unwrap_or(false),
             tq_ms: v["tq_ms"].as_u64().unwrap_or(60_000),
             transport: v["transport"].as_str().unwrap_or("tcp").to_string(),
+            quic_idle: v["quic_idle"].as_u64().unwrap_or(5),
         }
     }
 }
@@ -207,7 +210,7 @@ impl Node {
             // idle connection live through the short pauses of the scenarios and a black-holed one be noticed soon
             "quic" => b.with_quic(QuicConfig {
                 listen_addresses: vec!["/ip4/127.0.0.1/udp/0/quic-v1".parse().unwrap()],
-                connection_open_timeout: Duration::from_secs(5),
+                connection_open_timeout: Duration::from_secs(cfg.quic_idle),
                 substream_open_timeout: Duration::from_secs(2),
             }),
             _ => b.with_tcp(tcp),
@@ -430,7 +433,6 @@ impl Net {
                     v.conns.remove(&c);
                     if v.conns.is_empty() {
                         v.fault = true;
-                        v.want = false;
                         node.push(json!({"e":"conn","k":"down","p":name}));
                     }
                 }
